@@ -644,16 +644,118 @@ func runSched(c SCase) *hx.Outcome {
 	return o
 }
 
+// ---- (c) directory churn: sibling mailboxes toggling between empty and non-empty ----
+
+type ChCase struct {
+	Backend string `json:"backend"`
+	Iter    int    `json:"iter"`
+	Workers int    `json:"workers"`
+	Mode    []int  `json:"mode"` // per worker: 0 add-get-remove, 1 add-add-purge, 2 add-remove-visit
+}
+
+var propChurn = hx.Prop[ChCase]{
+	ID: pid, Name: "churn",
+	Rule: "3 workers, each on its own mailbox - names whose hashes share the file store's level-1 directory but differ in the next digit - " +
+		"loop 100-400 times over deliver/read/remove (or purge, or visit), so every mailbox keeps toggling between empty (directory and " +
+		"empty parents removed) and non-empty (directories created) while its siblings do the same; no operation may fail, every delivered " +
+		"message must be readable until its owner removes it, and all mailboxes are empty at the end; non-trivial = file back-end",
+	Quick: 6, Thorough: 60,
+	Gen: func(t *rapid.T) ChCase {
+		return ChCase{Backend: rapid.SampledFrom([]string{"file", "file", "file", "mem"}).Draw(t, "backend"), Iter: rapid.IntRange(100, 400).Draw(t, "iter"), Workers: 3,
+			Mode: rapid.SliceOfN(rapid.IntRange(0, 2), 3, 3).Draw(t, "mode")}
+	},
+	Run: func(c ChCase) *hx.Outcome {
+		o := &hx.Outcome{}
+		st, cleanup := mkStore(Case{Backend: c.Backend})
+		defer cleanup()
+		names := hx.Siblings()
+		var mu sync.Mutex
+		var errs []string
+		fail := func(f string, a ...interface{}) {
+			mu.Lock()
+			if len(errs) < 3 {
+				errs = append(errs, fmt.Sprintf(f, a...))
+			}
+			mu.Unlock()
+		}
+		var wg sync.WaitGroup
+		for wi := 0; wi < c.Workers; wi++ {
+			wg.Add(1)
+			go func(wi int) {
+				defer wg.Done()
+				box := names[wi%len(names)]
+				for i := 0; i < c.Iter; i++ {
+					id, err := st.AddMessage(hx.NewDelivery(box, nil, nil, hx.BaseTime, "c", []byte("churn")))
+					if err != nil {
+						fail("worker %d iteration %d: AddMessage(%s): %v", wi, i, box, err)
+						return
+					}
+					if m, err := st.GetMessage(box, id); err != nil || m == nil {
+						fail("worker %d iteration %d: message %s/%s just delivered is not readable: %v", wi, i, box, id, err)
+						return
+					}
+					switch c.Mode[wi%len(c.Mode)] {
+					case 0:
+						if err := st.RemoveMessage(box, id); err != nil {
+							fail("worker %d iteration %d: RemoveMessage(%s,%s): %v", wi, i, box, id, err)
+							return
+						}
+					case 1:
+						if _, err := st.AddMessage(hx.NewDelivery(box, nil, nil, hx.BaseTime, "c", []byte("second"))); err != nil {
+							fail("worker %d iteration %d: second AddMessage(%s): %v", wi, i, box, err)
+							return
+						}
+						if err := st.PurgeMessages(box); err != nil {
+							fail("worker %d iteration %d: PurgeMessages(%s): %v", wi, i, box, err)
+							return
+						}
+					case 2:
+						if err := st.RemoveMessage(box, id); err != nil {
+							fail("worker %d iteration %d: RemoveMessage(%s,%s): %v", wi, i, box, id, err)
+							return
+						}
+						if err := st.VisitMailboxes(func([]storage.Message) bool { return true }); err != nil {
+							fail("worker %d iteration %d: VisitMailboxes: %v", wi, i, err)
+							return
+						}
+					}
+				}
+			}(wi)
+		}
+		done := make(chan struct{})
+		go func() { wg.Wait(); close(done) }()
+		select {
+		case <-done:
+		case <-time.After(3 * hx.ReplyTimeout):
+			o.Failf(pid+":deadlock", "[%s] churning workers did not finish within %v", c.Backend, 3*hx.ReplyTimeout)
+			return o
+		}
+		for _, e := range errs {
+			o.Failf(pid+":op-error", "[%s] %s", c.Backend, e)
+		}
+		if !o.Failed() {
+			for _, b := range names {
+				if ms, err := st.GetMessages(b); err != nil || len(ms) != 0 {
+					o.Failf(pid+":lost-delivery", "[%s] mailbox %s ends with %d messages (err %v), expected none", c.Backend, b, len(ms), err)
+				}
+			}
+		}
+		o.NonTrivial = c.Backend == "file"
+		return o
+	},
+}
+
 func TestProp(t *testing.T) {
 	t.Run("sched", propSched.Check)
 	t.Run("free", propFree.Check)
+	t.Run("churn", propChurn.Check)
 }
-func TestRegress(t *testing.T) { propSched.Regress(t); propFree.Regress(t) }
+func TestRegress(t *testing.T) { propSched.Regress(t); propFree.Regress(t); propChurn.Regress(t) }
 func TestReplay(t *testing.T) {
 	if *hx.ReplayPath == "" {
 		t.Skip("no -replay")
 	}
-	if !propSched.Replay(t, *hx.ReplayPath) && !propFree.Replay(t, *hx.ReplayPath) {
+	if !propSched.Replay(t, *hx.ReplayPath) && !propFree.Replay(t, *hx.ReplayPath) && !propChurn.Replay(t, *hx.ReplayPath) {
 		t.Fatalf("no prop matches %s", *hx.ReplayPath)
 	}
 }
